@@ -109,6 +109,8 @@ func backendProp(b backendSpec, meaning string) propFunc {
 			c.runImageTypeViaGlobal(r, "imagetype.viaglobal", inPkgs(b.Name))
 			r.floor("imagetype.viaglobal", 1)
 		}
+		r.Clauses = append(r.Clauses, "no silent literal (E73): a type switch over IR expression kinds that renders text does not answer the kinds it has no arm for with a fixed literal (\"0\", \"{}\") and no error")
+		c.runSilentLiteralArm(r, "dispatch.silentliteral", inPkgs(b.Name), nil)
 		r.Clauses = append(r.Clauses, shallowWalkerClause)
 		c.runShallowWalker(r, "walker.shallow", inPkgs(b.Name), shallowWalkerExceptions)
 		r.floor("walker.shallow", 2)
